@@ -251,6 +251,11 @@ def tlc_model_check(spec, cfg, workers=4, expect_violation=False, timeout=1800, 
         if r.violation or r.error or not r.finished:
             sys.stderr.write(r.out[-4000:])
             raise ToolError("model checking of %s/%s failed (spec-level problem)" % (spec, cfg))
+        if "-coverage" in list(extra):
+            zero = r.coverage_zero()
+            if zero:
+                # vacuity guard: an action that was never taken means the property was never exercised
+                raise ToolError("model checking of %s/%s: actions never taken: %s" % (spec, cfg, zero))
     return r
 
 
